@@ -23,6 +23,7 @@ type SerialTrace struct {
 	Calls []interface{}          `json:"calls"`
 	Mons  []interface{}          `json:"mons"`
 	Final map[string]interface{} `json:"final"`
+	Stuck []string               `json:"stuck"` // requests the server never answered
 }
 
 func op(o abs.AOp) abs.AOp { o.Normalize(); return o }
@@ -65,7 +66,7 @@ func RunSerial(b *abs.Built, dir string, seed int64, nclients, ncalls int) (*Ser
 		return nil, err
 	}
 	// ---- monitors: one per encoding over every table and column
-	tr := &SerialTrace{Init: init}
+	tr := &SerialTrace{Init: init, Stuck: []string{}}
 	for k, method := range []string{"monitor", "monitor_cond"} {
 		req := map[string]interface{}{}
 		for _, t := range b.Abs.TableNames() {
@@ -117,7 +118,8 @@ func RunSerial(b *abs.Built, dir string, seed int64, nclients, ncalls int) (*Ser
 			ret := atomic.AddInt64(&clock, 1)
 			mu.Lock()
 			if err != nil {
-				firstErr = fmt.Errorf("late monitor: %v", err)
+				// an unanswered monitor request is an observation about the server, not a failure of the harness
+				tr.Stuck = append(tr.Stuck, fmt.Sprintf("%s request %s: %v", method, id, err))
 			} else {
 				late[id] = lateMon{inv: inv, ret: ret, init: init}
 			}
